@@ -551,3 +551,160 @@ Theorem C14_project_judgement_example :
   | _ => False
   end.
 Proof. exact ScopeLinkReg.exr_facts. Qed.
+
+(* ---- 3 (FULL): the converse direction on whole projects, for EVERY verdict.  Supersedes the list "Not covered" above and
+   item (3) of the header: C14_project_judgement is the full statement.
+   (a) MustDiag r, every r (duplicate in one scope / exporting a name the includer already has, import of a name the includer
+       lacks, export or `.global` of a name without value, register name, use of an invisible name, import-and-export):
+       the pipeline ends with status Failure and at least one diagnostic.  Proof (Asm/ScopeVerdictFine.v, ScopeVerdictStep.v,
+       ScopeVerdictRun.v, ScopeVerdictTop.v), by contraposition: when Context::assemble of the root returns Ok, every file
+       instance returned Ok; per name the statements seen so far and the two tables are in one of seven situations, every statement
+       that returns Ok moves inside them or DOOMS the file (a pending import check on a name that now has a value, a pending
+       `.global` copy of a name the includer already has valued) and a doomed file does not return Ok; at the end of each file the
+       counts (definitions + imports <= 1, hand-ups <= 1, ...) make the tree `fine`, and a fine tree has an empty error list in the
+       oracle (C14_project_no_errors).  Closing the last region never fails (C13), so "not Success" is Failure.
+   (b) Accept: the pipeline ends with Done Success [] and the image is ONE region at the project's address, 4 bytes per `.du32` in
+       assembly order, the bytes of use site k being the oracle's value, little endian.  Proof (Asm/ScopeVerdictAbs.v: a reading of
+       the oracle's tree in the assembler's order of events; ScopeVerdictSim.v, ScopeVerdictSimRun.v: the model follows the reading
+       statement by statement - tables, deferred tasks, bytes of the active segment, no include cycle; ScopeVerdictAcc.v: no listed
+       error + documented order => the reading is never stuck and emits the oracle's values; ScopeVerdictAccept.v).
+   Both for both build profiles and every include fuel above the number of files.  The hypothesis a + 4n < 2^32 of (a) is part of
+   the Accept verdict in (b). ---- *)
+From Trion Require Asm.ScopeVerdictFine Asm.ScopeVerdictAbs Asm.ScopeVerdictTop Asm.ScopeVerdictAcc Asm.ScopeVerdictAccept.
+
+(* the root file returned Ok => the oracle lists no error at all *)
+Theorem C14_project_no_errors : forall dbg p a t n fuel s1, project_ok p = true -> expand_project p = Some (a, t, n) ->
+  (a + 4 * Z.of_N n < 4294967296)%Z ->
+  assemble dbg (project_fs p) fuel init_state (project_text p) (project_root p) = Ret None s1 ->
+  (ScopeSpec.errors t no_env ++ top_errors t)%list = [].
+Proof. exact ScopeVerdictTop.project_no_errors. Qed.
+
+(* any listed error anywhere in the project (not only the first): the run ends with Failure and a diagnostic, whatever the fuel *)
+Theorem C14_project_error_fails : forall dbg p a t n fuel s diags regions r, project_ok p = true ->
+  expand_project p = Some (a, t, n) -> (a + 4 * Z.of_N n < 4294967296)%Z ->
+  In r (ScopeSpec.errors t no_env ++ top_errors t) ->
+  pipeline_gen dbg (project_fs p) fuel (project_root p) (project_text p) = Done s diags regions ->
+  s = Failure /\ diags <> [].
+Proof. exact ScopeVerdictTop.project_error_fails. Qed.
+
+(* (a) for every reason *)
+Theorem C14_project_mustdiag : forall dbg p a t n f r, project_ok p = true -> expand_project p = Some (a, t, n) ->
+  (a + 4 * Z.of_N n < 4294967296)%Z -> j_verdict (judge_project p) = MustDiag r -> (List.length (p_files p) <= f)%nat ->
+  exists diags regions, pipeline_gen dbg (project_fs p) (S f) (project_root p) (project_text p) = Done Failure diags regions /\
+    diags <> [].
+Proof. exact ScopeVerdictTop.project_mustdiag. Qed.
+
+(* ... one theorem per reason class *)
+Theorem C14_project_duplicate_fails : forall dbg p a t n f, project_ok p = true -> expand_project p = Some (a, t, n) ->
+  (a + 4 * Z.of_N n < 4294967296)%Z -> j_verdict (judge_project p) = MustDiag RDuplicate -> (List.length (p_files p) <= f)%nat ->
+  exists diags regions, pipeline_gen dbg (project_fs p) (S f) (project_root p) (project_text p) = Done Failure diags regions /\
+    diags <> [].
+Proof. exact ScopeVerdictTop.project_duplicate_fails. Qed.
+Theorem C14_project_import_lacks_fails : forall dbg p a t n f, project_ok p = true -> expand_project p = Some (a, t, n) ->
+  (a + 4 * Z.of_N n < 4294967296)%Z -> j_verdict (judge_project p) = MustDiag RImportLacks -> (List.length (p_files p) <= f)%nat ->
+  exists diags regions, pipeline_gen dbg (project_fs p) (S f) (project_root p) (project_text p) = Done Failure diags regions /\
+    diags <> [].
+Proof. exact ScopeVerdictTop.project_import_lacks_fails. Qed.
+Theorem C14_project_export_unvalued_fails : forall dbg p a t n f, project_ok p = true -> expand_project p = Some (a, t, n) ->
+  (a + 4 * Z.of_N n < 4294967296)%Z -> j_verdict (judge_project p) = MustDiag RExportUnvalued -> (List.length (p_files p) <= f)%nat ->
+  exists diags regions, pipeline_gen dbg (project_fs p) (S f) (project_root p) (project_text p) = Done Failure diags regions /\
+    diags <> [].
+Proof. exact ScopeVerdictTop.project_export_unvalued_fails. Qed.
+Theorem C14_project_invisible_use_fails : forall dbg p a t n f, project_ok p = true -> expand_project p = Some (a, t, n) ->
+  (a + 4 * Z.of_N n < 4294967296)%Z -> j_verdict (judge_project p) = MustDiag RInvisibleUse -> (List.length (p_files p) <= f)%nat ->
+  exists diags regions, pipeline_gen dbg (project_fs p) (S f) (project_root p) (project_text p) = Done Failure diags regions /\
+    diags <> [].
+Proof. exact ScopeVerdictTop.project_invisible_use_fails. Qed.
+Theorem C14_project_import_and_export_fails : forall dbg p a t n f, project_ok p = true -> expand_project p = Some (a, t, n) ->
+  (a + 4 * Z.of_N n < 4294967296)%Z -> j_verdict (judge_project p) = MustDiag RImportAndExport -> (List.length (p_files p) <= f)%nat ->
+  exists diags regions, pipeline_gen dbg (project_fs p) (S f) (project_root p) (project_text p) = Done Failure diags regions /\
+    diags <> [].
+Proof. exact ScopeVerdictTop.project_import_and_export_fails. Qed.
+Theorem C14_project_register_name_fails : forall dbg p a t n f, project_ok p = true -> expand_project p = Some (a, t, n) ->
+  (a + 4 * Z.of_N n < 4294967296)%Z -> j_verdict (judge_project p) = MustDiag RRegisterName -> (List.length (p_files p) <= f)%nat ->
+  exists diags regions, pipeline_gen dbg (project_fs p) (S f) (project_root p) (project_text p) = Done Failure diags regions /\
+    diags <> [].
+Proof. exact ScopeVerdictTop.project_register_name_fails. Qed.
+
+(* a successful run is never a MustDiag project; closing the last region never fails *)
+Theorem C14_project_success_no_mustdiag : forall dbg p a t n fuel diags regions r, project_ok p = true ->
+  expand_project p = Some (a, t, n) -> (a + 4 * Z.of_N n < 4294967296)%Z ->
+  pipeline_gen dbg (project_fs p) fuel (project_root p) (project_text p) = Done Success diags regions ->
+  j_verdict (judge_project p) <> MustDiag r.
+Proof. exact ScopeVerdictTop.project_success_no_mustdiag. Qed.
+Theorem C14_project_never_close_error : forall dbg fs fuel path text s diags regions,
+  pipeline_gen dbg fs fuel path text = Done s diags regions -> s <> CloseError.
+Proof. exact ScopeVerdictTop.pipeline_never_close_error. Qed.
+
+(* the two register tables are the same (the other inclusion is C14_project_register_table) *)
+Theorem C14_project_register_table_conv : forall x, CtxModel.is_register x = true -> ScopeSpec.is_register x = true.
+Proof. exact ScopeVerdictAcc.is_register_conv. Qed.
+
+(* (b) Accept.  region_of a buf = [] for buf = [], otherwise the one region (a, a + |buf| - 1, buf).  j_uses lists the use sites
+   (k, Some v) in assembly order, k = 0, 1, ..: the 4 bytes at offset 4k (address a + 4k) are the little-endian bytes of v *)
+Theorem C14_project_accept : forall dbg p a t n f, project_ok p = true -> expand_project p = Some (a, t, n) ->
+  j_verdict (judge_project p) = Accept -> (List.length (p_files p) <= f)%nat ->
+  exists buf,
+    pipeline_gen dbg (project_fs p) (S f) (project_root p) (project_text p) = Done Success [] (ScopeVerdictAccept.region_of a buf) /\
+    List.length buf = (4 * N.to_nat n)%nat /\
+    forall k v, In (k, Some v) (j_uses (judge_project p)) ->
+      firstn 4 (skipn (4 * N.to_nat k) buf) = le_n 4 (Z.to_N v).
+Proof. exact ScopeVerdictAccept.project_accept_bytes. Qed.
+
+(* ... in words: the image is exactly the list of the oracle's values (W has one word per use site; WV v = the value v) *)
+Theorem C14_project_accept_words : forall dbg p a t n f, project_ok p = true -> expand_project p = Some (a, t, n) ->
+  j_verdict (judge_project p) = Accept -> (List.length (p_files p) <= f)%nat ->
+  exists W,
+    pipeline_gen dbg (project_fs p) (S f) (project_root p) (project_text p)
+      = Done Success [] (ScopeVerdictAccept.region_of a (ScopeVerdictAbs.flat W)) /\
+    List.length W = N.to_nat n /\
+    forall k v, In (k, Some v) (j_uses (judge_project p)) ->
+      (N.to_nat k < List.length W)%nat /\ nth (N.to_nat k) W ScopeVerdictAbs.WP = ScopeVerdictAbs.WV v.
+Proof. exact ScopeVerdictAccept.project_accept. Qed.
+
+(* the full statement *)
+Theorem C14_project_judgement : forall dbg p a t n f, project_ok p = true -> expand_project p = Some (a, t, n) ->
+  (a + 4 * Z.of_N n < 4294967296)%Z -> (List.length (p_files p) <= f)%nat ->
+  (forall r, j_verdict (judge_project p) = MustDiag r ->
+     exists diags regions, pipeline_gen dbg (project_fs p) (S f) (project_root p) (project_text p) = Done Failure diags regions /\
+       diags <> []) /\
+  (j_verdict (judge_project p) = Accept ->
+     exists buf,
+       pipeline_gen dbg (project_fs p) (S f) (project_root p) (project_text p) = Done Success [] (ScopeVerdictAccept.region_of a buf) /\
+       List.length buf = (4 * N.to_nat n)%nat /\
+       forall k v, In (k, Some v) (j_uses (judge_project p)) ->
+         firstn 4 (skipn (4 * N.to_nat k) buf) = le_n 4 (Z.to_N v)).
+Proof. exact ScopeVerdictAccept.project_judgement. Qed.
+
+(* the reading of Asm/ScopeVerdictAbs.v is what both halves of (b) meet at: a tree without listed error, in documented order, whose
+   imports have a value in the includer's table and whose handed-up names are absent from it, is read without getting stuck, and
+   the word of every use site is its oracle value (AOK, Asm/ScopeVerdictAcc.v) - for every file instance, not only the root *)
+Theorem C14_project_accept_instances : forall d, ScopeVerdictAcc.AOK d.
+Proof. exact ScopeVerdictAcc.AOK_all. Qed.
+
+(* non-vacuity, one project per reason (register names: C14_project_judgement_example):
+     RDuplicate        r = `.addr 256; .include "c"; .include "c";`       c = `A: .export A;`
+     RImportLacks      r = `.addr 256; .include "c";`                     c = `.import A;`
+     RExportUnvalued   r = `.addr 256; .include "c";`                     c = `.global A;`
+     RInvisibleUse     r = `.addr 256; .include "c"; .du32 A;`            c = `.const A, 7;`
+     RImportAndExport  r = `.addr 256; .const A, 1; .include "c";`        c = `.import A; .export A;`
+   fails_with p r k: p can be written, the oracle says MustDiag r, the run is Done Failure with a first diagnostic of class k *)
+Theorem C14_project_verdict_examples :
+  ScopeVerdictTop.fails_with ScopeVerdictTop.ex_dup RDuplicate (KApply AGDuplicate) /\
+  ScopeVerdictTop.fails_with ScopeVerdictTop.ex_lacks RImportLacks (KApply AGNotFound) /\
+  ScopeVerdictTop.fails_with ScopeVerdictTop.ex_unvalued RExportUnvalued (KApply AGDeferred) /\
+  ScopeVerdictTop.fails_with ScopeVerdictTop.ex_invisible RInvisibleUse (KApply AEval) /\
+  ScopeVerdictTop.fails_with ScopeVerdictTop.ex_impexp RImportAndExport (KApply AGDuplicate).
+Proof. exact ScopeVerdictTop.ex_verdict_facts. Qed.
+
+(* non-vacuity of (b): three files, a forward reference in two files, an import, `.global` before the label (in the root and in an
+   included file), an export:
+     r = `.addr 256; .global M; .const A, 5; .include "c"; .du32 B; .du32 L; L: M: .du32 M;`
+     c = `.import A; .du32 A; .global B; .du32 B; B: .include "g"; .du32 E;`        g = `.const E, 9; .export E;` *)
+Theorem C14_project_accept_example :
+  project_ok ScopeVerdictAccept.ex_acc = true /\ j_verdict (judge_project ScopeVerdictAccept.ex_acc) = Accept /\
+  j_uses (judge_project ScopeVerdictAccept.ex_acc) =
+    [(0, Some 5%Z); (1, Some 264%Z); (2, Some 9%Z); (3, Some 264%Z); (4, Some 276%Z); (5, Some 276%Z)] /\
+  pipeline_gen false (project_fs ScopeVerdictAccept.ex_acc) 8 (project_root ScopeVerdictAccept.ex_acc) (project_text ScopeVerdictAccept.ex_acc) =
+    Done Success [] [(256, 279, [5; 0; 0; 0;  8; 1; 0; 0;  9; 0; 0; 0;  8; 1; 0; 0;  20; 1; 0; 0;  20; 1; 0; 0])].
+Proof. exact ScopeVerdictAccept.ex_acc_facts. Qed.
